@@ -14,13 +14,17 @@ FirstNT(f, i) == IF i > Len(f) THEN 0 ELSE IF f[i] \in Nonterminals THEN i ELSE 
 PrefixOK(f, y) == LET i == FirstNT(f, 1)  k == IF i = 0 THEN Len(f) ELSE i - 1 IN
    /\ k <= Len(y) /\ \A j \in 1..k : f[j] = y[j]
    /\ (i = 0 => Len(f) = Len(y))
+\* every terminal already in the form must occur at least as often in the target (cheap necessary condition that prunes
+\* productions introducing tokens the target does not have)
+Count(f, k) == Cardinality({ j \in 1..Len(f) : f[j] = k })
+KindsOK(f, y) == \A j \in 1..Len(f) : f[j] \in Nonterminals \/ Count(f, f[j]) <= Count(y, f[j])
 Init == \E k \in 1..Len(Targets) : tid = Targets[k].id /\ tgt = Targets[k].y /\ form = <<StartSymbol>>
 Next == LET i == FirstNT(form, 1)  y == tgt IN
         /\ i > 0
         /\ \E p \in 1..Len(Productions) :
              /\ Productions[p].lhs = form[i]
              /\ LET nf == SubSeq(form, 1, i-1) \o Productions[p].rhs \o SubSeq(form, i+1, Len(form)) IN
-                /\ SumMin(nf) <= Len(y) /\ PrefixOK(nf, y)
+                /\ SumMin(nf) <= Len(y) /\ PrefixOK(nf, y) /\ KindsOK(nf, y)
                 /\ form' = nf
         /\ UNCHANGED <<tid, tgt>>
 Emit == (FirstNT(form, 1) = 0 /\ form = tgt) => PrintT(<<"MEMBER", ToJson([id |-> tid])>>)
